@@ -83,7 +83,7 @@ FIXED += [
     ("C16", "b5d88fb", "`substr('hello', 2, 0)` returned `ello` (length 0 taken for no length) (audit agent; the reference no longer treats length 0 as don't-care)", []),
     ("C16", "22fd575", "INITCAP rewrote white space (`initcap('a   b')` was 3 characters long, tabs became blanks, leading blanks vanished) (audit agent; the check's own reference had mirrored the implementation - corrected to the documentation's wording)", []),
     ("C19", "129a060", "encrypted members and members with an unsupported compression method were silently dropped although their directory entries are complete (audit agent; one generated member in eight is now such a member)", []),
-    ("C04", "8af6352", "has_xattrs / capabilities / has_xattr() / xattr() / has_caps() / has_cap() opened the entry: a symbolic link showed its target's attributes, a FIFO in the tree blocked the search for ever, an unreadable file showed no attributes (audit agents; C04 now has an  case with links, a pipe and an unreadable file, run as root and as nobody)", []),
+    ("C04", "8af6352", "has_xattrs / capabilities / has_xattr() / xattr() / has_caps() / has_cap() opened the entry: a symbolic link showed its target's attributes, a FIFO in the tree blocked the search for ever, an unreadable file showed no attributes (audit agents; C04 now has an xattr-own case with links, a pipe and an unreadable file, run as root and as nobody)", []),
     ("C10", "9b6a0a7", "day('2020-0\u0661-01'): the date pattern matched non-ASCII digits and the integer parse of the capture was unwrapped (found by the eval_total fuzz target after 2e7 executions)", ["date-non-ascii-digit"]),
     ("C10", "69a0b27", "`name from './[a' depth 1 rx`: a malformed pattern in a regexp search root panicked (unwrap of Regex::new)", ["regexp-root-malformed"]),
 ]
